@@ -8,3 +8,5 @@ def run(ctx, rep):
     pivot.rule_inverse_perms(mod, rep)
     from ..rules import order
     order.rule_colorder_table(mod, rep)
+    from ..rules import more
+    more.rule_preset_joined(mod, rep)
